@@ -25,18 +25,17 @@ Fixpoint flog_search (x : Q) (e : Z) (fuel : nat) : Z :=
 
 Definition in_decade (x : Q) (e : Z) : bool := Qle_bool (p10 e) x && negb (Qle_bool (p10 (e + 1)) x).
 
-(* floor(log10 x) for x > 0.  With x = p/q, s_p and s_q the bit lengths: 2^(s_p-s_q-1) < x < 2^(s_p-s_q+1).
-   A short search window derived from that is tried first and its answer CHECKED; the wide window
+(* floor(log10 x) for x > 0.  With x = p/q, s_p and s_q the bit lengths: 2^(s_p-s_q-1) < x < 2^(s_p-s_q+1), hence
+   (s_p-s_q-1)*0.30103 < log10 x < (s_p-s_q+1)*0.30103.  A window of four decades starting just below that
+   estimate is tried first and its answer CHECKED (so nothing rests on the estimate); the wide window
    [-s_q, s_p] (always sufficient, see FileProofs.flog10_spec) is the fallback. *)
 Definition flog10 (x : Q) : Z :=
   match Qnum x with
   | Zpos p =>
     let sp := Z.pos (Pos.size p) in
     let sq := Z.pos (Pos.size (Qden x)) in
-    let d := (sp - sq)%Z in
-    let lo := Z.min 0 (d - 1) in
-    let hi := Z.max 0 (d + 1) in
-    let r := flog_search x lo (Z.to_nat (hi - lo)) in
+    let lo := ((sp - sq - 1) * 30103 / 100000 - 1)%Z in
+    let r := flog_search x lo 4 in
     if in_decade x r then r
     else flog_search x (- sq)%Z (Z.to_nat (sp + sq))
   | _ => 0%Z
